@@ -45,4 +45,25 @@ PROPS = {
                      "Thesaurus (terms / text definitions) is covered by the implementation-level oracle only, under acyclic term references"],
         partial=["incremental_eq_scratch_statement"],
     ),
+    "C11": dict(
+        lean_modules=["CCVerif.Properties.C11"],
+        harness=["c11_main.cpp"],
+        trusted_base=["evaluation is instantiated on the fragment 'term = union of global names, base set = set of integer keys'; outside it (structures, statements, functions, general expressions) only the implementation-level oracle (fresh model + RecalculateAll) applies",
+                      "the C07 schema model underneath (same assumptions)"],
+        assumptions=["the text of an interpretation key is fixed by the harness, so equal key sets mean equal interpretations",
+                     "renaming without substitution is exercised by C07/C08, not here"],
+        partial=["fresh_statement"],
+    ),
+    "C16": dict(
+        lean_modules=["CCVerif.Properties.C16"],
+        harness=["c16_main.cpp"],
+        exhaustive=True,
+        trusted_base=["std::set<StructuredData> (SDEnumSet) is modelled as sorted insertion under the model's transcription of Compare / operator<; std::vector, std::optional, std::variant not modelled",
+                      "the harness builds typifications with the raw constructor Typification(std::vector<Typification>) (for arity >= 2 this is what Typification::Tuple does) and values with Factory::Val/Tuple/EmptySet + SDSet::AddElement, plus a few lazily enumerated sets (Factory::Boolean, Factory::Decartian)"],
+        assumptions=["table cells and element ids are int32_t in the C++, Z in the model (the packer/unpacker do no arithmetic on cells apart from --count; cardinalities fit int32)",
+                     "typifications are well formed: every tuple has arity >= 2 (what Typification::Tuple / the type checker produce). Arity 0 and 1 are only reachable through the raw constructor: arity 0 hits the assert of Factory::Tuple, arity 1 returns the bare component (model and code agree, stream (4) of the harness; theorem unpack_degenerate_arity)",
+                     "round trip is proved for values without a set of exactly SDCompact::unknownCount = 10 000 000 elements (noMarker); for a value with such a set followed by a sibling the packed table does not unpack (theorems unpack_pack_marker_collision, unpack_pack_marker_counterexample) - the witness needs 2*10^7 table rows and is not replayed by the harness",
+                     "'compatible' is the full structural predicate compat (every element typed, sets strictly ascending); it implies the C++ CheckCompatible (theorem compat_checkCompatible), which the harness also evaluates on every unpacked value"],
+        partial=["unpack_pack_statement (round trip for EVERY compatible value) is false in the model: unpack_pack_partial proves it under the extra hypothesis noMarker v; unpack_pack_marker_counterexample refutes the unrestricted statement"],
+    ),
 }
